@@ -381,7 +381,13 @@ class Template:
                             self, data, filename, path, self.module_writer
                         )
                 module = compat.load_module(self.module_id, path)
-                if module._magic_number != codegen.MAGIC_NUMBER:
+                if (
+                    module._magic_number != codegen.MAGIC_NUMBER
+                    # generated from some other file that was served under
+                    # this uri, e.g. from another lookup directory
+                    or getattr(module, "_template_filename", filename)
+                    != filename
+                ):
                     data = util.read_file(filename)
                     with _drop_expression_warnings():
                         _compile_module_file(
